@@ -153,6 +153,41 @@ pub fn syms(spec: &Spec) -> Vec<Sym> {
     v
 }
 
+/// The alphabet plus partial operations on windows of the two remaining shape classes - a band of full
+/// panel width and a strip of full panel height (a window test such as `w != WIDTH && h != HEIGHT` treats
+/// them differently from interior windows). Used by the monitors that are about what a partial operation
+/// leaves behind (C01, C02, C07); kept out of the common alphabet to keep the exhaustive enumerations small.
+pub fn syms_shapes(spec: &Spec) -> Vec<Sym> {
+    let mut v = syms(spec);
+    let w = w8(spec);
+    let h = spec.h;
+    let band = Win::new(0, (h / 3) & !7, w, 8.min(h));
+    let strip = Win::new(8.min(w - 8), 0, 8, h);
+    // (Full-frame writers handed a partial-frame buffer were tried as history symbols and dropped: the unchanged
+    // 2in13b_v4 relies on whole-frame writes wrapping the address counter, so such a call shifts every later frame
+    // there too - buffers of undocumented length are not protocol-respecting history elements.)
+    for (i, win) in [band, strip].into_iter().enumerate() {
+        let i = i as u32;
+        if spec.has(K::UpdatePartial) && spec.name != "epd2in9b_v4" {
+            v.push(vec![partial_op(spec, K::UpdatePartial, win, 120 + i)]);
+        }
+        if spec.has(K::PartialOld) {
+            v.push(vec![partial_op(spec, K::PartialOld, win, 130 + i), partial_op(spec, K::PartialNew, win, 140 + i)]);
+        }
+        if spec.has(K::ClearPartial) {
+            v.push(vec![partial_op(spec, K::ClearPartial, win, 0)]);
+        }
+        if spec.has(K::PartialAchromatic) {
+            v.push(vec![partial_op(spec, K::PartialAchromatic, win, 150 + i)]);
+            v.push(vec![partial_op(spec, K::PartialChromatic, win, 160 + i)]);
+        }
+        if spec.has(K::UpdatePartial2) {
+            v.push(vec![partial_op(spec, K::UpdatePartial2, win, 170 + i)]);
+        }
+    }
+    v
+}
+
 /// Is this symbol legal in the driver's current logical state? (protocol grammar)
 /// Tracks only what the documentation makes a precondition.
 #[derive(Clone, Debug, Default)]
